@@ -8,8 +8,9 @@ Contents
   §4  dualities               `C04_dual_*`, `C04_negB_negB`, `C04_neg_neg`      (all intervals, all weights)
   §2  classical tables        `C04_classical_*`                                 (any arity, XOr any n)
   §3  strong Kleene tables    `C04_kleene_*`, `C04_aggregate_unknown`, `C04_stepUp_unknown`
-  §1  point evaluation        `C04_point`, `C04_point_gen`, `C04_point_call`
-  non-vacuity examples over ℚ
+  §1  point evaluation        `C04_point`, `C04_point_gen`, `C04_point_call`, `C04_point_local`
+  non-vacuity examples over ℚ (weighted nested formula, Iff and XOr through the public call,
+  a three-valued engine run, the tables on concrete lists, a counterexample for negative weights)
 -/
 import LnnVerif.Lemmas.Truth
 import Mathlib.Algebra.Order.Field.Rat
@@ -937,6 +938,55 @@ example :
   norm_num [runPass, passSteps, Call.steps, callUp, runSteps, runStep, stepUp, iffKB, arrested,
     isContra, region, actUp, andUp, impliesUp, opds, aggregate, clamp01, termLo, termHi,
     Function.update, UNKNOWN, TRUE]
+
+/-- exactly-one XOr(0,1) as the implementation builds it: node 5 = And(3,4) over the generated inner
+nodes 2 = And(0,1), 3 = Not(2), 4 = Or(0,1), all run first by `upward` of node 5 -/
+def xorKB : KB Nat ℚ := fun i =>
+  match i with
+  | 2 => { kind := .and, ops := [0, 1], ws := [1, 1], bias := 1, alpha := 1 }
+  | 3 => { kind := .neg, ops := [2], bias := 1, alpha := 1 }
+  | 4 => { kind := .or, ops := [0, 1], ws := [1, 1], bias := 1, alpha := 1 }
+  | 5 => { kind := .and, ops := [3, 4], ws := [1, 1], bias := 1, alpha := 1, pre := [2, 3, 4] }
+  | _ => { kind := .atom, bias := 1, alpha := 1 }
+
+def xorV : Nat → ℚ := fun i =>
+  match i with
+  | 0 => 1 | 1 => 0 | 2 => 0 | 3 => 1 | 4 => 1 | 5 => 1 | _ => 0
+
+theorem xor_wf : WF xorKB := by
+  intro i
+  unfold xorKB
+  split <;> simp
+
+theorem xor_consistent : Consistent xorKB xorV := by
+  intro i
+  match i with
+  | 0 => simp [xorKB, xorV, nodeVal]
+  | 1 => simp [xorKB, xorV, nodeVal]
+  | 2 => simp [xorKB, xorV, nodeVal, clamp01]
+  | 3 => simp [xorKB, xorV, nodeVal]
+  | 4 => simp [xorKB, xorV, nodeVal, clamp01]
+  | 5 => simp [xorKB, xorV, nodeVal, clamp01]
+  | (n + 6) => simp [xorKB, xorV, nodeVal]
+
+theorem xor_sat : Sat xorV iffS := by
+  intro i
+  match i with
+  | 0 => simp [xorV, iffS]
+  | 1 => simp [xorV, iffS]
+  | 2 => simp [xorV, iffS]
+  | 3 => simp [xorV, iffS]
+  | 4 => simp [xorV, iffS]
+  | 5 => simp [xorV, iffS]
+  | (n + 6) => simp [xorV, iffS]
+
+/-- the public call `XOr.upward()` evaluates the classical table entry `xor(1, 0) = 1` -/
+example : (runPass xorKB ([5].map Call.up) iffS).1 5 = ⟨xorVal [1, 0], xorVal [1, 0]⟩ := by
+  have h := C04_point_call xorKB xor_wf xorV xor_consistent iffS xor_sat [5]
+    (by simp [expandUp, ChildrenFirst, ChildrenFirstFrom, xorKB, IsPoint, iffS, xorV])
+    (by simp [expandUp, xorKB, nodeVal]) 5 (by simp [expandUp])
+  rw [C04_classical_xor [1, 0] (by simp)]
+  simpa [IsPoint, xorV] using h
 
 /-! the classical tables on concrete lists -/
 
